@@ -1,69 +1,31 @@
 """C16 -- colored output is the plain output plus well-nested styling."""
 import ast
-import itertools
 import os
 
 from engine import foreign
-from engine.astutil import src, call_name, dotted, Guards, enclosing_map
+from engine.astutil import src, call_name
 from engine.loader import AnalysisError
-from engine.switch import enumerate_paths
-from .c04 import _renderer_facts
 
 META = {
-    'text': 'Static rules over color.py, syntax.py and every annotate() site: (a) the token->pygments table has a key for '
-            'every member of the Token enum, every Token.X mentioned in the package is a member, every annotation the '
-            'printers create is a Token member or a comment annotation; (b) the push and pop handlers of the colour stack '
-            'are guarded by the same predicate on the annotation value, push appends exactly one colour and writes it, '
-            'pop removes one and writes the new top or reset; (c) a non-empty stack is reset after the loop; (d) every '
-            'style string is built up from reset; (e) every attribute fetched from the colorful module - literal or '
-            'getattr with a constant-propagated finite string set - parses under colorful\'s style grammar read from the '
-            'installed colorful sources, and the pygments attribute keys used exist; (f) the coloured renderer agrees with '
-            'the plain one on line splitting, text, line breaks and rstrip, and writes only style strings in its extra '
-            'branches. Pygments style resolution and terminal behaviour are NOT decided.',
-    'note': 'the colorful grammar (modifiers, fg_on_bg / on_bg, palette names) is read with ast from the installed colorful; '
-            'results are specific to the installed colorful/pygments versions',
-    'technique': 'static analysis: exhaustiveness over an enum, sibling agreement of two renderers, typestate symmetry of '
-                 'push/pop guards, constant-string propagation over feasible paths + foreign attribute universe',
+    'text': 'The coloured renderer, the plain renderer and the style builder are interpreted abstractly (no execution) on small '
+            'concrete annotated sdoc sequences - texts, line breaks, balanced push/pop pairs of syntax tokens and of other '
+            'annotation values nested up to depth 3, all ordered pairs of style profiles side by side and nested, every Token '
+            'member once - against models of the stream, the pygments style (a chosen attribute profile per token) and the '
+            'colorful module (style names resolved under colorful\'s own grammar, read from the installed sources, against the '
+            'current palette at attribute access; & concatenates). What is written is decoded by an SGR state machine and '
+            'compared with the specification: (f) styling removed, the text equals what the plain renderer writes on the same '
+            'input; (b) every non-blank character carries exactly the attributes of the innermost enclosing syntax token, the '
+            'enclosing style is back after an inner token ends, each call uses the style it is given (default style when '
+            'omitted); (c) the final state is the reset state; (a) every Token member has a mapping and renders, every '
+            'Token.X mentioned in the package is a member, every annotation the printers create is a Token member or a comment '
+            'annotation; (d,e) for all 32 combinations of color/bgcolor/bold/italic/underline the style is accepted by '
+            'colorful, starts from reset and sets exactly what was asked. Pygments style resolution and terminal behaviour '
+            'are NOT decided; whitespace characters are not attributed.',
+    'note': 'the colorful model (eager resolution in __getattr__, __and__ concatenation, __str__ = start codes) was read from '
+            'the installed colorful 0.5 sources and is an assumption of the check; results are specific to the installed versions',
+    'technique': 'static analysis: abstract interpretation of both renderers on small concrete scenarios with foreign models, '
+                 'SGR-state decoding of the recorded writes; exhaustiveness over an enum; foreign attribute universe',
 }
-
-
-def _feasible(conds):
-    """is there a truth assignment of the atomic sub-tests making every (test, polarity) hold?"""
-    atoms = []
-    parsed = []
-    for text, pol in conds:
-        try:
-            t = ast.parse(text, mode='eval').body
-        except SyntaxError:
-            return True
-        parsed.append((t, pol))
-
-        def leaves(n):
-            if isinstance(n, ast.BoolOp):
-                for v in n.values:
-                    leaves(v)
-            elif isinstance(n, ast.UnaryOp) and isinstance(n.op, ast.Not):
-                leaves(n.operand)
-            else:
-                s = src(n)
-                if s not in atoms:
-                    atoms.append(s)
-        leaves(t)
-    if len(atoms) > 10:
-        return True
-
-    def ev(n, env):
-        if isinstance(n, ast.BoolOp):
-            vals = [ev(v, env) for v in n.values]
-            return all(vals) if isinstance(n.op, ast.And) else any(vals)
-        if isinstance(n, ast.UnaryOp) and isinstance(n.op, ast.Not):
-            return not ev(n.operand, env)
-        return env[src(n)]
-    for bits in itertools.product([False, True], repeat=len(atoms)):
-        env = dict(zip(atoms, bits))
-        if all(ev(t, env) == pol for t, pol in parsed):
-            return True
-    return False
 
 
 def _colorful_grammar():
@@ -172,110 +134,16 @@ def run(repo, rep):
                               'annotate(%s, ...) creates an annotation that is neither a Token member nor a CommentAnnotation' % src(v))
     rep.floor('C16.a', n, 14 + 30)
 
-    # ---------------------------------------------------------------- C16.b / c
-    n = 0
-    f = m.funcs.get('colored_render_to_stream')
-    if f is None:
-        raise AnalysisError('colored_render_to_stream vanished')
-    g = Guards(f.node)
-    stream = f.params[0]
-    # the colour stack: the list appended to under the push guard
-    appends = [c for c in ast.walk(f.node) if isinstance(c, ast.Call) and isinstance(c.func, ast.Attribute) and c.func.attr == 'append'
-               and any(ff.pol and 'SAnnotationPush' in ff.text for ff in g.of(c))]
-    if len(appends) != 1:
-        raise AnalysisError('cannot identify the colour stack push (found %d appends under the push guard)' % len(appends))
-    stack = src(appends[0].func.value)
-    pops = [c for c in ast.walk(f.node) if isinstance(c, ast.Call) and call_name(c) == stack + '.pop']
-    loopvar = None
-    for ff in g.of(appends[0]):
-        if ff.pol and ff.text.startswith('isinstance(') and 'SAnnotationPush' in ff.text:
-            loopvar = ff.text[len('isinstance('):].split(',')[0]
+    # ---------------------------------------------------------------- C16.a(2) / b / c / f  -- the renderer, semantically
+    from . import c16_render
+    c16_render.run(repo, rep, members)
 
-    def value_guards(node):
-        out = set()
-        for ff in g.of(node):
-            if loopvar and (loopvar + '.value') in ff.text:
-                out.add((ff.text, ff.pol))
-        return out
-    inits = [a for a in ast.walk(f.node) if isinstance(a, ast.Assign) and src(a.targets[0]) == stack]
-    par16 = enclosing_map(f.node)
-    n += 1
-    in_loop = [a for a in inits if any(isinstance(x, (ast.For, ast.While)) for x in _anc16(a, par16))]
-    rep.check(len(inits) == 1 and not in_loop and src(inits[0].value) == '[]', 'C16.b', 'stack:initialised-once-before-the-loop', f.where,
-              'one colour stack for the whole document',
-              'the colour stack is (re)initialised %s: a token spanning several lines loses its enclosing colour and the final reset'
-              % ('inside a loop (line %d)' % in_loop[0].lineno if in_loop else '%d times' % len(inits)), nontrivial=True)
-    push_guard = value_guards(appends[0])
-    n += 1
-    rep.check(bool(push_guard), 'C16.b', 'push:guarded-by-token-test', '%s:%d' % (m.relpath, appends[0].lineno),
-              'only syntax tokens push a colour', 'the push handler pushes a colour for every annotation')
-    n += 1
-    rep.check(len(pops) == 1, 'C16.b', 'pop:one-removal', f.where, 'pop handler removes exactly one colour',
-              'the pop handler removes %d colours' % len(pops), nontrivial=True)
-    for p in pops:
-        n += 1
-        rep.check(value_guards(p) == push_guard, 'C16.b', 'pop:same-guard-as-push', '%s:%d' % (m.relpath, p.lineno),
-                  'pop guarded by the same predicate as push',
-                  'the push handler is guarded by %s but the pop handler by %s: the end of a non-token annotation pops the '
-                  'enclosing token\'s colour' % (sorted(push_guard), sorted(value_guards(p)) or 'nothing'), nontrivial=True)
-        n += 1
-        rep.check(any(ff.pol and 'SAnnotationPop' in ff.text for ff in g.of(p)), 'C16.b', 'pop:in-pop-handler',
-                  '%s:%d' % (m.relpath, p.lineno), 'removal only on a pop event', 'colour removed outside the SAnnotationPop handler')
-    writes = [c for c in ast.walk(f.node) if isinstance(c, ast.Call) and call_name(c) == stream + '.write']
-    push_writes = [w for w in writes if any(ff.pol and 'SAnnotationPush' in ff.text for ff in g.of(w))]
-    pop_writes = [w for w in writes if any(ff.pol and 'SAnnotationPop' in ff.text for ff in g.of(w))]
-    pushed = src(appends[0].args[0])
-    n += 1
-    rep.check(len(push_writes) == 1 and src(push_writes[0].args[0]) == 'str(%s)' % pushed and value_guards(push_writes[0]) == push_guard,
-              'C16.b', 'push:writes-pushed-colour', f.where, 'the colour pushed is the colour written',
-              'push handler appends %s but writes %s' % (pushed, [src(w.args[0]) for w in push_writes]), nontrivial=True)
-    top = {'str(%s[-1])' % stack}
-    reset = {'str(colorful.reset)'}
-    n += 1
-    ok = len(pop_writes) == 2
-    if ok:
-        for w in pop_writes:
-            fs = g.of(w)
-            nonempty = any(ff.pol and ff.text == stack for ff in fs)
-            empty = any((not ff.pol) and ff.text == stack for ff in fs)
-            a = src(w.args[0])
-            ok &= (nonempty and a in top) or (empty and a in reset)
-            ok &= value_guards(w) == push_guard
-            ok &= w.lineno > pops[0].lineno if pops else False
-    rep.check(ok, 'C16.b', 'pop:restores-enclosing-or-reset', f.where, 'after a pop the enclosing colour, or reset, is written',
-              'pop handler writes %s' % [(src(w.args[0]), g.texts(w)[-2:]) for w in pop_writes], nontrivial=True)
-    # C16.c final reset
-    tail = [st for st in f.node.body if isinstance(st, ast.If) and src(st.test) == stack]
-    n += 1
-    okc = len(tail) == 1 and f.node.body[-1] is tail[0] and len(tail[0].body) == 1 and \
-        src(tail[0].body[0]) == '%s.write(str(colorful.reset))' % stream
-    rep.check(okc, 'C16.c', 'final-reset', f.where, 'non-empty stack is reset at the end',
-              'colored_render_to_stream no longer ends with "if %s: %s.write(str(colorful.reset))"' % (stack, stream), nontrivial=True)
-    # cache correctness: colour cached per token value
-    rep.floor('C16.b+c', n, 8)
-
-    # ---------------------------------------------------------------- C16.d / C16.e
-    n = 0
-    sf = m.funcs.get('styleattrs_to_colorful')
-    if sf is None:
-        raise AnalysisError('styleattrs_to_colorful vanished')
-    rets = [r for r in ast.walk(sf.node) if isinstance(r, ast.Return)]
-    resvar = src(rets[-1].value) if rets else None
-    inits = [s for s in sf.node.body if isinstance(s, ast.Assign) and src(s.targets[0]) == resvar]
-    n += 1
-    okd = len(rets) == 1 and len(inits) == 1 and src(inits[0].value) == 'colorful.reset' and sf.node.body.index(inits[0]) <= 1
-    for s in ast.walk(sf.node):
-        if isinstance(s, ast.Assign) and src(s.targets[0]) == resvar and s is not (inits[0] if inits else None):
-            okd = False
-        if isinstance(s, ast.AugAssign) and src(s.target) == resvar and not isinstance(s.op, ast.BitAnd):
-            okd = False
-    rep.check(okd, 'C16.d', 'style-built-from-reset', sf.where, 'style = reset & ... on every path',
-              'styleattrs_to_colorful no longer starts every style from colorful.reset and only adds to it with &=: re-emitting '
-              'an enclosing colour would not cancel inner bold/italic/underline', nontrivial=True)
+    # ---------------------------------------------------------------- C16.d / C16.e  -- style attributes -> colorful style
     modifiers, real, palette = _colorful_grammar()
     rep.analysed['colorful_modifiers'] = sorted(modifiers)
     rep.analysed['colorful_palette_size'] = len(palette)
-    # literal attributes, all functions of color.py
+    n = 0
+    # literal attributes, all functions of color.py (robust existence rule)
     for fn in m.funcs.values():
         for a in ast.walk(fn.node):
             if isinstance(a, ast.Attribute) and isinstance(a.value, ast.Name) and a.value.id == 'colorful':
@@ -285,46 +153,8 @@ def run(repo, rep):
                           'attribute exists in colorful (method or style name)',
                           'colorful.%s does not parse as a colorful style (%s; modifiers are %s): ColorfulAttributeError at render time'
                           % (a.attr, why or 'unknown name', sorted(modifiers)), nontrivial=True)
-    # computed attributes: getattr(colorful, X) with X constant-propagated over feasible paths
-    paths = [p for p in enumerate_paths(sf.node.body, '__none__', {}) if _feasible(p.conds)]
-    rep.count(len(paths))
-    seen = {}
-    for p in paths:
-        strs = {}
-        installed = set()
-        for e in p.events:
-            if e[0] == 'set':
-                name, op, val = e[1], e[2], e[3]
-                sval = _str_value(val, strs)
-                if op == '=':
-                    strs[name] = sval
-                elif op == '+=' and sval is not None and strs.get(name) is not None:
-                    strs[name] = strs[name] + sval
-                elif op in ('+=',):
-                    strs[name] = None
-            if e[0] == 'call' and e[1] == 'colorful.update_palette':
-                try:
-                    d = ast.parse(e[2][0], mode='eval').body
-                    if isinstance(d, ast.Dict):
-                        installed |= {k.value for k in d.keys if isinstance(k, ast.Constant)}
-                except (SyntaxError, IndexError):
-                    pass
-            if e[0] == 'call' and e[1] == 'getattr' and e[2] and e[2][0] == 'colorful':
-                acc = _str_value(e[2][1], strs) if len(e[2]) > 1 else None
-                key = (acc, tuple(sorted(installed)))
-                if key in seen:
-                    continue
-                seen[key] = p
-                n += 1
-                if acc is None:
-                    rep.undecided('C16.e', 'getattr(colorful, %s)' % e[2][1], '%s:%d' % (m.relpath, e[4]),
-                                  'accessor is not a constant string on path (%s)' % p.cond_text())
-                    continue
-                ok, why = _style_ok(acc, modifiers, palette | installed)
-                rep.check(ok, 'C16.e', 'getattr(colorful, %r)' % acc, '%s:%d' % (m.relpath, e[4]),
-                          'computed style name parses',
-                          'on path (%s) the style name %r is fetched from colorful: %s: ColorfulAttributeError at render time'
-                          % (p.cond_text(), acc, why), nontrivial=True)
+    n += c16_render.style_builder(repo, rep, modifiers, real, palette, _style_ok)
+    sf = m.funcs.get('styleattrs_to_colorful')
     # pygments attribute keys used exist in what style_for_token returns
     psrc = foreign.find_source('pygments.style')
     used = sorted({n_.slice.value for n_ in ast.walk(sf.node) if isinstance(n_, ast.Subscript)
@@ -343,37 +173,6 @@ def run(repo, rep):
                       "attrs[%r] is read but pygments' style_for_token produces %s" % (k, sorted(produced)))
     rep.floor('C16.d+e', n, 13)
 
-    # ---------------------------------------------------------------- C16.f
-    n = _renderer_facts(rep, m, f, 'C16.f', allow_extra_writes=True)
-    # the same line splitter as the plain renderer
-    r = repo.resolve(m, 'as_lines')
-    n += 1
-    rep.check(bool(r) and r[0] == 'func' and r[1].module.name.endswith('.render') and
-              any(isinstance(c, ast.Call) and call_name(c) == 'as_lines' for c in ast.walk(f.node)), 'C16.f',
-              'same-line-splitter', f.where, 'coloured renderer uses render.as_lines', 'coloured renderer does not split lines with render.as_lines')
-    # extra writes are style strings only
-    for w in writes:
-        a = src(w.args[0])
-        fs = g.of(w)
-        if any(ff.pol and ff.text in ('isinstance(%s, str)' % loopvar, 'isinstance(%s, SLine)' % loopvar) for ff in fs):
-            continue
-        n += 1
-        rep.check(a.startswith('str(') and ('color' in a or stack in a), 'C16.f', 'extra-write:%s' % a, '%s:%d' % (m.relpath, w.lineno),
-                  'only style strings are written besides text and line breaks',
-                  'the coloured renderer writes %s besides text, line breaks and style strings' % a, nontrivial=True)
-    from .c04 import utils_rules
-    n += utils_rules(repo, rep, 'C16.f')
-    rep.floor('C16.f', n, 9)
-
-
-def _anc16(node, par):
-    out = []
-    p = par.get(id(node))
-    while p is not None:
-        out.append(p)
-        p = par.get(id(p))
-    return out
-
 
 def _fn_of(mod, node):
     best = '<module>'
@@ -381,26 +180,3 @@ def _fn_of(mod, node):
         if f.node.lineno <= node.lineno <= (f.node.end_lineno or f.node.lineno):
             best = f.qualname
     return best
-
-
-def _str_value(text, strs):
-    try:
-        n = ast.parse(text, mode='eval').body
-    except SyntaxError:
-        return None
-
-    def ev(n):
-        if isinstance(n, ast.Constant) and isinstance(n.value, str):
-            return n.value
-        if isinstance(n, ast.Name):
-            return strs.get(n.id)
-        if isinstance(n, ast.BinOp) and isinstance(n.op, ast.Add):
-            a, b = ev(n.left), ev(n.right)
-            return a + b if a is not None and b is not None else None
-        if isinstance(n, ast.IfExp):
-            t = ev(n.test) if isinstance(n.test, (ast.Name, ast.Constant)) else None
-            if t is None:
-                return None
-            return ev(n.body) if t else ev(n.orelse)
-        return None
-    return ev(n)
